@@ -20,6 +20,7 @@ import H4.Driver.Bits
 import H4.Driver.SkpHuff
 import H4.Driver.NBit
 import H4.Driver.DD
+import H4.Driver.Tools
 open H4.Driver
 
 /-- state of every stateful engine; reset at each `CASE` line -/
@@ -61,6 +62,8 @@ def stepWorld (w : World) (engine : String) (args : List String) : World × Stri
   | "gr" => let (s, out) := stepGr w.gr args; ({ w with gr := s }, out)
   | "limits" => let (l, out) := stepLimits w.limits args; ({ w with limits := l }, out)
   | "hp" => let (h, r) := stepHp w.hp args; ({ w with hp := h }, r)
+  | "repack" => (w, stepRepack args)
+  | "tools" => (w, stepTools args)
   | _ => (w, "bad-engine")
 
 structure RunSt where
